@@ -105,16 +105,32 @@ def h2(ctx):
             if len(pops) != 1 or len(muts) != 1:
                 ctx.violate(key, p, '%s must remove exactly once from the wait list (mutators: %s)' % (name, [m.name for m in muts]))
                 continue
-            if has(lb, 'pop', 'Some'):
+            popv = pops[0].data['res']
+            pay = ('field', ('downcast', popv, 'Some'), '0')
+            # was the list found empty?  `match pop {Some/None}` or `pop.is_none()` / `is_some()` on the popped value
+            empty = None
+            if has(lb, 'pop', 'Some') or has(lb, 'pop_back', 'Some'):
+                empty = False
+            elif has(lb, 'pop', 'None') or has(lb, 'pop_back', 'None'):
+                empty = True
+            else:
+                for e in evs:
+                    if e.name == 'BR' and e.data['label'] in ('opt_none', 'opt_some') and contains(e.data['val'], popv):
+                        t_ = e.data['outcome'] == 'T'
+                        empty = t_ if e.data['label'] == 'opt_none' else (not t_)
+            if empty is None:
+                ctx.violate(key, p, '%s does not examine whether the wait list was empty' % name)
+                continue
+            returns_pop = (r == popv)
+            if not empty:
                 kinds.add('some')
-                pay = ('field', ('downcast', pops[0].data['res'], 'Some'), '0')
-                if not (r[0] == 'agg' and r[2] == 'Some' and r[3][0] == pay):
+                if not (returns_pop or (r[0] == 'agg' and r[2] == 'Some' and r[3][0] == pay)):
                     ctx.violate(key, p, '%s does not return the removed entry' % name)
                 if wrs:
                     ctx.violate(key, p, '%s flips the kind flag although the list was not empty' % name)
-            elif has(lb, 'pop', 'None'):
+            else:
                 kinds.add('none')
-                if not (r[0] == 'agg' and r[2] == 'None'):
+                if not (returns_pop or (r[0] == 'agg' and r[2] == 'None')):
                     ctx.violate(key, p, '%s returns something although the list is empty' % name)
                 if len(wrs) != 1 or wrs[0].data['field'] != 'recv_blocking' or not is_const(wrs[0].data['val'], flip):
                     ctx.violate(key, p, '%s must set recv_blocking=%s when it finds the list empty' % (name, 'true' if flip == '1' else 'false'))
@@ -160,6 +176,24 @@ def scan_helper(ctx, key, name, want_flag, mutating):
     for p, evs in ret_paths(ctx, b):
         ctx.oblige(1, sample='%s [%s] -> %s' % (name, p.signature(), fmt(p.ret)))
         r = p.ret
+        if r is not None and r[0] == 'call' and r[2] == 'std::iter::Iterator::any' and not mutating:
+            # `flag && wait_list.iter().any(|s| s.eq(sig))` returned directly
+            from mir import ci_field_ref
+            a = r[3]
+            src = a[0]
+            if src[0] in ('ref', 'rawptr') and len(src) > 2 and src[2] is not None:
+                src = src[2]
+            ok_src = src[0] == 'call' and src[2] == 'std::collections::VecDeque::iter' and ci_field_ref(src[3][0]) == 'wait_list'
+            clo = a[1] if len(a) > 1 else None
+            ok_clo = clo is not None and clo[0] == 'agg' and clo[1] == 'closure' and closure_is_eq_sig(ctx, clo)
+            if not (ok_src and ok_clo):
+                ctx.violate(key, p, '%s: the search is not `wait_list.iter().any(|s| s.eq(sig))` over the whole list' % name)
+            if wl_mutators(evs):
+                ctx.violate(key, p, '%s mutates the wait list' % name)
+            if not kind_flag_ok(evs, want_flag):
+                ctx.violate(key, p, '%s looks at the wait list under the wrong kind flag' % name)
+            saw_true = saw_false = True
+            continue
         if not (r is not None and r[0] == 'const' and r[1] == 'bool'):
             ctx.violate(key, p, '%s returns a non-constant: %s' % (name, fmt(r)))
             continue
@@ -407,7 +441,7 @@ def h7(ctx):
             if len(calls) != 1 or calls[0].name != 'signal::Signal::terminate':
                 ctx.violate(key, p, 'SignalTerminator::terminate is not a plain forward to Signal::terminate')
     # construction sites
-    allowed = {'<signal::SignalTerminator<T> as std::convert::From<*const signal::Signal<T>>>::from'}
+    allowed = {'<signal::SignalTerminator<T> as std::convert::From<*const signal::Signal<T>>>::from', 'signal::Signal::<T>::get_terminator'}
     n = 0
     for k, bd in ctx.facts.bodies.items():
         for blk in bd.blocks:
@@ -416,8 +450,8 @@ def h7(ctx):
                     n += 1
                     ctx.instance('%s builds SignalTerminator' % k)
                     ctx.oblige(1)
-                    if k not in allowed:
-                        ctx.violate(k, None, 'SignalTerminator constructed outside From<*const Signal>', at=s.get('at'), sig='construct')
+                    if not fam.allowed_for(ctx, k, allowed):
+                        ctx.violate(k, None, 'SignalTerminator constructed outside From<*const Signal> / get_terminator', at=s.get('at'), sig='construct')
     key = 'signal::Signal::<T>::get_terminator'
     b = getbody(ctx, key)
     if b is not None:
@@ -426,6 +460,8 @@ def h7(ctx):
             ctx.oblige(1, sample='get_terminator returns From::from(self as *const Signal)')
             r = p.ret
             ok = r is not None and r[0] == 'call' and r[2] in ('std::convert::Into::into', 'std::convert::From::from') and contains(r[3][0], ('param', 1))
+            if r is not None and r[0] == 'agg' and r[1] == 'signal::SignalTerminator' and len(r[3]) == 1 and contains(r[3][0], ('param', 1)):
+                ok = True  # built directly: SignalTerminator(self as *const _)
             if not ok:
                 ctx.violate(key, p, 'get_terminator does not wrap the address of self: %s' % fmt(r))
     key = '<signal::SignalTerminator<T> as std::cmp::PartialEq<signal::Signal<T>>>::eq'
